@@ -425,12 +425,13 @@ func (c *closeRT) judge(stopBound time.Duration) {
 			// after an event at the other end or in the network
 			// 0-RTT connections (HANDSHAKE_NO_WAIT): until the application's first Write the
 			// session does not exist on the wire; only the client's own Close/Stop can concern it
-			early := c.beforeFirstWrite(key, &r, end, blocked)
+			fw, zeroRTT := c.firstWriteOf(key, &r)
+			earlyAt := func(t time.Duration) bool { return zeroRTT && fw > t } // no Write had started by t
 			var limit time.Duration = -1
 			var why killRec
 			var bnd time.Duration
 			for _, k := range kills {
-				if early && k.side != "client" {
+				if earlyAt(k.at) && k.side != "client" {
 					continue
 				}
 				b := 3 * time.Minute
@@ -456,7 +457,7 @@ func (c *closeRT) judge(stopBound time.Duration) {
 					situation = "dial-completed-after-stop"
 				}
 				c.mu.Unlock()
-				if early {
+				if earlyAt(why.at) {
 					situation = "no-wait-before-first-write"
 				}
 				w.violate("C15", "call-hangs-after-"+kindClass(why.kind)+":"+r.op+":"+situation, "%s: %s started at %v; the session was affected by %s (at the %s side) at %v; %s (bound %v)", r.conn, r.op, r.start, why.kind, why.side, why.at, state, bnd)
@@ -473,7 +474,7 @@ func (c *closeRT) judge(stopBound time.Duration) {
 						which = "later-call"
 					}
 					cls := "deadline-not-honoured:" + which + ":" + r.op + ":" + sideOf(r.conn) + ":" + tr
-					if early {
+					if earlyAt(lim) {
 						cls += ":no-wait-before-first-write"
 					}
 					w.violate("C15", cls, "%s: %s started at %v with a deadline at %v set earlier and not changed since; it returned at %v (err %q)", r.conn, r.op, r.start, r.deadline, end, r.err)
@@ -491,7 +492,8 @@ func (c *closeRT) judge(stopBound time.Duration) {
 					killedBefore = true // the call failed because the session was ended or broken: any error will do
 				}
 			}
-			if r.err != "" && strings.Contains(strings.ToLower(r.err), "timeout") && !killedBefore {
+			handshakeWrite := r.op == "write" && sideOf(r.conn) == "client" && c.isNoWait(key) // a 0-RTT Write also performs the handshake, with mieru's own 10 s limit
+			if r.err != "" && strings.Contains(strings.ToLower(r.err), "timeout") && !killedBefore && !handshakeWrite {
 				if r.deadline == 0 || end < r.deadline-tick {
 					w.violate("C15", "timeout-without-deadline:"+r.op+":"+sideOf(r.conn)+":"+tr, "%s: %s started at %v returned a timeout at %v although the deadline in force was %v (0 = none)", r.conn, r.op, r.start, end, r.deadline)
 				}
@@ -503,11 +505,12 @@ func (c *closeRT) judge(stopBound time.Duration) {
 	w.mu.Unlock()
 }
 
-// beforeFirstWrite: r is a client-side call on a 0-RTT connection and no client-side Write on
-// that connection had started by the time r ended (or ever, if r is still blocked).
-func (c *closeRT) beforeFirstWrite(key string, r *callRec, end time.Duration, blocked bool) bool {
+// firstWriteOf: for a client-side Read on a 0-RTT connection, when the first client-side Write
+// on that connection started (a huge value if there never was one). Until then the connection
+// has sent nothing and its Read waits for the handshake that only that Write performs.
+func (c *closeRT) firstWriteOf(key string, r *callRec) (time.Duration, bool) {
 	if sideOf(r.conn) != "client" || r.op != "read" {
-		return false
+		return 0, false
 	}
 	noWait := false
 	for _, cl := range c.w.clients {
@@ -518,7 +521,7 @@ func (c *closeRT) beforeFirstWrite(key string, r *callRec, end time.Duration, bl
 		}
 	}
 	if !noWait || c.w.Spec.Server.RawMux {
-		return false
+		return 0, false
 	}
 	c.mu.Lock()
 	defer c.mu.Unlock()
@@ -533,8 +536,21 @@ func (c *closeRT) beforeFirstWrite(key string, r *callRec, end time.Duration, bl
 			}
 		}
 	}
-	t, ok := c.firstWrite[r.conn]
-	return !ok || (!blocked && t > end)
+	if t, ok := c.firstWrite[r.conn]; ok {
+		return t, true
+	}
+	return 1 << 62, true
+}
+
+func (c *closeRT) isNoWait(key string) bool {
+	for _, cl := range c.w.clients {
+		for i := range cl.spec.Sessions {
+			if sessKey(cl.idx, cl.spec.Sessions[i].ID) == key && cl.spec.NoWait {
+				return true
+			}
+		}
+	}
+	return false
 }
 
 func sideOf(conn string) string {
